@@ -5,13 +5,16 @@ written from the *same* SED arrays; `convolve_model_dir` is run on both (cube: m
 2–3 filters at once; every convolved/<filter>.fits is read back (raw FITS tables and
 `ConvolvedFluxes.read`); `Fitter.fit` is run on every variant (cube: `use_memmap` on and off).
 
-Independent oracle for "the row labelled X holds the flux computed from SED X": every SED is
-`c[X][a] * g(nu)` (errors `e[X][a] * h(nu)`) with model- and aperture-specific constants.  The
-filters are normalised and lie inside the SED's spectral range, so for `g == 1` (flat F_nu) the exact
-convolved flux is `c[X][a]` (C06's flat-spectrum law).  For any `g`, linearity gives
-`flux[X][a] = G * c[X][a]`, `error[X][a] = H * e[X][a]` with file-wide constants G, H, which are
-obtained label-free from the column sums.  Each data row is thereby *identified* from its numbers
-alone and compared with its label.
+Independent oracle for "the row labelled X holds the flux and error computed from SED X": the harness
+convolves every SED itself (`expected_rows`: its own exact integration of the piecewise-linear, normalised
+filter over the frequency bins of the SED grid; nothing of sedfitter is used) and every row of every file
+— per-file, cube with memmap=True, cube with memmap=False — is compared with it, flux and error, and
+thereby *identified* from its numbers alone and compared with its label.  SEDs are
+`c[X][a] * g(nu) * t[X](nu)`, uncertainties `e[X][a] * h(nu) * u[X](nu)`: flat (`g = t = 1`: the exact
+convolved flux is `c[X][a]`, C06's flat-spectrum law, which also pins the harness's integrator), common
+shape (`t = u = 1`), or general (model- and wavelength-dependent `t`, `u`: uncertainties proportional
+neither to the fluxes nor to one another).  The cube files of both memmap settings are each compared
+with the per-file package name by name (flux and error, 1e-12).
 
 Model side: driver `ordermatch` (= `sortToMatch`) on (SED names in directory-listing order, table
 names) predicts which listing position lands in which row; `convnames 1|2` (= `convolveV1/V2` on tagged
@@ -39,6 +42,8 @@ REQUIRED_BRANCHES = ['perfile', 'cube', 'conv_memmap_on', 'conv_memmap_off', 'fi
                      'sed_nu_inc', 'sed_nu_dec', 'cube_nu_inc', 'cube_nu_dec',
                      'listing_ne_table', 'listing_ne_nameorder', 'table_ne_nameorder', 'padded_table_names',
                      'name_len_30', 'nap_1', 'nap_gt1', 'filters_2', 'filters_3', 'flat', 'nonflat',
+                     'general_sed', 'err_not_proportional', 'independent_expectation',
+                     'cube_memmap_on_vs_perfile', 'cube_memmap_off_vs_perfile',
                      'models_1', 'models_8', 'sed_subdir']
 ASSUMPTIONS = ['astropy FITS I/O stores float64 columns and string columns faithfully (observed, not proved)',
                'IEEE rounding is not modelled: flat-spectrum and cross-format comparisons use 1e-11 / 1e-12 relative',
@@ -146,6 +151,11 @@ def gen_case(rng, n=None, table_perm=None, directed=None):
     flat = directed.get('flat', rng.random() < 0.5)
     g = [1.] * len(wav) if flat else [nice(rng, 0.1, 10., 3) for _ in wav]
     h = [1.] * len(wav) if flat else [nice(rng, 0.1, 10., 3) for _ in wav]
+    # 'general': on top of the common shapes every model gets its own wavelength-dependent factors, different
+    # for flux and uncertainty, so the uncertainties are neither proportional to the fluxes nor to each other
+    general = directed.get('general', (not flat) and rng.random() < 0.6)
+    tilt = [[nice(rng, 0.3, 3., 3) if general else 1. for _ in wav] for _ in range(n)]
+    etilt = [[nice(rng, 0.3, 3., 3) if general else 1. for _ in wav] for _ in range(n)]
     # constants: distinct per model in every aperture (>= 2 % apart)
     def consts(lo, hi):
         out = [[None] * nap for _ in range(n)]
@@ -165,16 +175,18 @@ def gen_case(rng, n=None, table_perm=None, directed=None):
     return dict(names=names, stems=stems, listing=listing, table=table_names, cube=cube, nap=nap, aps=aps, wav=wav,
                 sed_store=directed.get('sed_store', rng.choice(['nu_inc', 'nu_dec'])),
                 cube_store=directed.get('cube_store', rng.choice(['nu_inc', 'nu_dec'])),
-                g=g, h=h, c=c, e=e, filters=filters, src=src, av=[0., 40.], flat=flat)
+                g=g, h=h, c=c, e=e, tilt=tilt, etilt=etilt, general=general, filters=filters, src=src, av=[0., 40.],
+                flat=flat)
 
 
 DIRECTED = [
     dict(n=1, nap=1, nf=2, flat=True, sed_store='nu_inc', cube_store='nu_dec', pad=True),
-    dict(n=8, nap=5, nf=3, flat=False, sed_store='nu_dec', cube_store='nu_inc', pad=True, name30=True, subdir=True),
+    dict(n=8, nap=5, nf=3, flat=False, general=True, sed_store='nu_dec', cube_store='nu_inc', pad=True, name30=True, subdir=True),
     dict(n=3, nap=1, nf=3, flat=True, sed_store='nu_dec', cube_store='nu_dec', pad=False, name30=True),
-    dict(n=4, nap=2, nf=2, flat=False, sed_store='nu_inc', cube_store='nu_inc', pad=True, subdir=True),
+    dict(n=4, nap=2, nf=2, flat=False, general=False, sed_store='nu_inc', cube_store='nu_inc', pad=True, subdir=True),
     dict(n=5, nap=3, nf=2, flat=True, sed_store='nu_dec', cube_store='nu_inc', pad=True, subdir=True),
-    dict(n=2, nap=4, nf=3, flat=False, sed_store='nu_inc', cube_store='nu_dec', pad=False),
+    dict(n=2, nap=4, nf=3, flat=False, general=True, sed_store='nu_inc', cube_store='nu_dec', pad=False),
+    dict(n=5, nap=1, nf=2, flat=False, general=True, sed_store='nu_dec', cube_store='nu_dec', pad=True),
 ]
 
 
@@ -206,7 +218,9 @@ def sed_arrays(case):
     e = np.array(case['e'], dtype=float)
     g = np.array(case['g'], dtype=float)
     h = np.array(case['h'], dtype=float)
-    return c[:, :, None] * g[None, None, :], e[:, :, None] * h[None, None, :]
+    t = np.array(case.get('tilt') or np.ones((len(c), len(g))), dtype=float)
+    u_ = np.array(case.get('etilt') or np.ones((len(c), len(g))), dtype=float)
+    return c[:, :, None] * g[None, None, :] * t[:, None, :], e[:, :, None] * h[None, None, :] * u_[:, None, :]
 
 
 def write_sed_raw(path, name, wav_um, flux, err, aps_au):
@@ -310,10 +324,43 @@ def rel(a, b):
     return abs(a - b) / max(abs(a), abs(b), 1e-300)
 
 
-def identify(row, consts, scale):
-    """index of the model whose constants (times the file-wide scale) reproduce this data row, or None"""
-    best = [m for m in range(len(consts)) if all(rel(row[a], scale * consts[m][a]) < 1e-9 for a in range(len(row)))]
+def identify(row, rows):
+    """index of the model whose expected row reproduces this data row, or None"""
+    best = [m for m in range(len(rows)) if all(rel(row[a], rows[m][a]) < 1e-9 for a in range(len(row)))]
     return best[0] if len(best) == 1 else None
+
+
+def pl_integral(x, y, a, b):
+    """integral from a to b of the piecewise-linear function through (x, y), x increasing, x[0] <= a <= b <= x[-1]"""
+    if b <= a:
+        return 0.
+    nodes = np.concatenate([[a], x[(x > a) & (x < b)], [b]])
+    vals = np.interp(nodes, x, y)
+    return float(np.sum(0.5 * (nodes[1:] - nodes[:-1]) * (vals[1:] + vals[:-1])))
+
+
+def expected_rows(case, filt):
+    """the harness's own convolution (independent of sedfitter): the filter, piecewise linear in frequency and
+    normalised to unit integral, is integrated over the frequency bins of the SED grid (bin edges half-way between
+    grid points, first / last bin ending at the grid ends, all clipped to the filter's range); the flux of (model,
+    aperture) is sum(F_i R_i), its error sqrt(sum((sigma_i R_i)^2))."""
+    from astropy import units as u
+    nu = (np.array(case['wav'], dtype=float) * u.micron).to(u.Hz, equivalencies=u.spectral()).value
+    order = np.argsort(nu)
+    nu = nu[order]
+    fnu = (np.array(filt['wav'], dtype=float) * u.micron).to(u.Hz, equivalencies=u.spectral()).value
+    fo = np.argsort(fnu)
+    fx, fy = fnu[fo], np.array(filt['resp'], dtype=float)[fo]
+    fy = fy / pl_integral(fx, fy, fx[0], fx[-1])
+    R = np.zeros(len(nu))
+    for i in range(len(nu)):
+        lo = nu[0] if i == 0 else 0.5 * (nu[i - 1] + nu[i])
+        hi = nu[-1] if i == len(nu) - 1 else 0.5 * (nu[i] + nu[i + 1])
+        lo, hi = min(max(lo, fx[0]), fx[-1]), min(max(hi, fx[0]), fx[-1])
+        R[i] = pl_integral(fx, fy, lo, hi)
+    flux, err = sed_arrays(case)
+    flux, err = flux[:, :, order], err[:, :, order]
+    return np.sum(flux * R, axis=2), np.sqrt(np.sum((err * R) ** 2, axis=2))
 
 
 def check_file(case, tab, via, expect_names, fname, filt, what):
@@ -333,26 +380,27 @@ def check_file(case, tab, via, expect_names, fname, filt, what):
         fails.append('%s %s: apertures %r, SED apertures %r' % (what, fname, [float(v) for v in tab['aps']], case['aps']))
     if rel(tab['wav'], filt['cw']) > 1e-14:
         fails.append('%s %s: FILTWAV %r, filter central wavelength %r' % (what, fname, tab['wav'], filt['cw']))
-    c, e = case['c'], case['e']
+    expF, expE = expected_rows(case, filt)
     if case['flat']:
-        G = 1.
-    else:
-        G = float(np.sum(tab['flux'])) / float(np.sum(np.array(c)))       # label-free
-    H = float(np.sum(tab['err'])) / float(np.sum(np.array(e)))
+        # flat F_nu through a normalised filter inside the SED range: exactly the constant (C06's flat-spectrum law);
+        # this also pins the harness's own integrator
+        if not all(rel(expF[m][a], case['c'][m][a]) < 1e-11 for m in range(n) for a in range(nap)):
+            raise RuntimeError('harness: own convolution of a flat SED is not its constant')
+        expF = np.array(case['c'], dtype=float)
     ident = []
     for i in range(n):
-        mf = identify(tab['flux'][i], c, G)
-        me = identify(tab['err'][i], e, H)
+        mf = identify(tab['flux'][i], expF)
+        me = identify(tab['err'][i], expE)
         lab = tab['names'][i].strip()
         exp = names.index(lab) if lab in names else None
         ident.append(mf)
         if mf is None or mf != exp or me != exp:
-            fails.append('%s %s row %d labelled %r: flux row %r is %s, error row %r is %s; SED %r gives flux %r '
-                         '(x %.6g), error x %.6g' % (
-                             what, fname, i, lab, [float(x) for x in tab['flux'][i]],
-                             'that of SED %r' % names[mf] if mf is not None else 'of no SED',
-                             [float(x) for x in tab['err'][i]], 'that of SED %r' % names[me] if me is not None else 'of no SED',
-                             lab, c[exp] if exp is not None else None, G, H))
+            fails.append('%s %s row %d labelled %r: flux row %r is %s, error row %r is %s; SED %r gives flux %r, error %r'
+                         % (what, fname, i, lab, [float(x) for x in tab['flux'][i]],
+                            'that of SED %r' % names[mf] if mf is not None else 'of no SED',
+                            [float(x) for x in tab['err'][i]], 'that of SED %r' % names[me] if me is not None else 'of no SED',
+                            lab, [float(x) for x in expF[exp]] if exp is not None else None,
+                            [float(x) for x in expE[exp]] if exp is not None else None))
     return fails, ident
 
 
@@ -408,7 +456,9 @@ def impl_side(case, d):
     srt = sorted(names)
     br |= {'perfile', 'cube', 'sed_' + case['sed_store'], 'cube_' + case['cube_store'],
            'nap_1' if case['nap'] == 1 else 'nap_gt1', 'filters_%d' % len(filters),
-           'flat' if case['flat'] else 'nonflat'}
+           'flat' if case['flat'] else 'nonflat', 'independent_expectation'}
+    if case.get('general'):
+        br |= {'general_sed', 'err_not_proportional'}
     if obs['listing'] != table_stripped:
         br.add('listing_ne_table')
     if obs['listing'] != srt:
@@ -442,7 +492,7 @@ def impl_side(case, d):
         obs.setdefault('v1_names', {})[fn] = tab['names']
 
     # ---- cube format, memmap on / off
-    v2 = {}
+    v2, v2all = {}, {}
     for mm in (True, False):
         br.add('conv_memmap_on' if mm else 'conv_memmap_off')
         try:
@@ -455,32 +505,39 @@ def impl_side(case, d):
             tab, via = read_convolved(os.path.join(d2, 'convolved', fn + '.fits'))
             f, ident = check_file(case, tab, via, case['cube'], fn, filt, 'cube(memmap=%s)' % mm)
             fails += f
+            v2all.setdefault(mm, {})[fn] = tab
             if mm:
                 v2[fn] = tab
                 obs.setdefault('v2_ident', {})[fn] = ident
                 obs.setdefault('v2_names', {})[fn] = tab['names']
             else:
-                if tab['names'] != v2[fn]['names'] or not np.array_equal(tab['flux'], v2[fn]['flux']) or \
-                        not np.array_equal(tab['err'], v2[fn]['err']):
-                    dmax = float(np.max(np.abs(tab['flux'] - v2[fn]['flux']) / np.abs(v2[fn]['flux'])))
-                    if tab['names'] != v2[fn]['names'] or dmax > 1e-12:
-                        fails.append('cube %s: memmap=False and memmap=True convolutions differ (max rel %.3g)' % (fn, dmax))
+                ref = v2[fn]
+                if tab['names'] != ref['names'] or tab['flux'].shape != ref['flux'].shape:
+                    fails.append('cube %s: memmap=False and memmap=True files differ in names / shape' % fn)
+                else:
+                    dmax = max(float(np.max(np.abs(tab[k] - ref[k]) / np.abs(ref[k]))) for k in ('flux', 'err'))
+                    if dmax > 1e-12:
+                        fails.append('cube %s: memmap=False and memmap=True convolutions differ in flux or error '
+                                     '(max rel %.3g)' % (fn, dmax))
 
-    # ---- same fluxes and errors in both formats, name by name
-    for fn in fnames:
-        a, b = v1[fn], v2[fn]
-        if a['flux'].shape != b['flux'].shape:
-            continue
-        for i, lab in enumerate(a['names']):
-            lab = lab.strip()
-            js = [j for j, x in enumerate(b['names']) if x.strip() == lab]
-            if len(js) != 1:
-                fails.append('%s: name %r occurs %d times in the cube-format file' % (fn, lab, len(js)))
+    # ---- same fluxes and errors in both formats, name by name, for the cube convolved either way
+    for mm in (True, False):
+        br.add('cube_memmap_%s_vs_perfile' % ('on' if mm else 'off'))
+        for fn in fnames:
+            a, b = v1[fn], v2all[mm][fn]
+            if a['flux'].shape != b['flux'].shape:
                 continue
-            j = js[0]
-            for x, y, w in ((a['flux'][i], b['flux'][j], 'flux'), (a['err'][i], b['err'][j], 'error')):
-                if any(rel(p, q) > 1e-12 for p, q in zip(x, y)):
-                    fails.append('%s model %r: per-file %s %r, cube-format %s %r' % (fn, lab, w, [float(v) for v in x], w, [float(v) for v in y]))
+            for i, lab in enumerate(a['names']):
+                lab = lab.strip()
+                js = [j for j, x in enumerate(b['names']) if x.strip() == lab]
+                if len(js) != 1:
+                    fails.append('%s: name %r occurs %d times in the cube-format file' % (fn, lab, len(js)))
+                    continue
+                j = js[0]
+                for x, y, w in ((a['flux'][i], b['flux'][j], 'flux'), (a['err'][i], b['err'][j], 'error')):
+                    if any(rel(p, q) > 1e-12 for p, q in zip(x, y)):
+                        fails.append('%s model %r: per-file %s %r, cube-format (memmap=%s) %s %r'
+                                     % (fn, lab, w, [float(v) for v in x], mm, w, [float(v) for v in y]))
     if fails:
         return fails, obs, br
 
@@ -604,7 +661,7 @@ def run_case(case):
         key = common.canon_hash(case)
         sample = dict(n_models=len(case['names']), n_ap=case['nap'], listing=case['listing'], table=case['table'],
                       cube=case['cube'], sed_store=case['sed_store'], cube_store=case['cube_store'],
-                      filters=[f['name'] for f in case['filters']], flat=case['flat'])
+                      filters=[f['name'] for f in case['filters']], flat=case['flat'], general=case.get('general', False))
         if fails:
             return CaseResult(False, detail='\n'.join(fails[:6]), violates=True, branches=br, key=key)
         mod = model_side(case, obs)
